@@ -401,6 +401,65 @@ def run_schedule(req):
                                                "second_thread_passed_fastpath_during_scan": passed_fastpath_while_scanning[0]}}
 
 
+LAZY = [0]
+
+
+def run_lazyboth(req):
+    """a module imported with importlib.util.LazyLoader (in sys.modules, body not run yet) for which there is built-in glue
+    and which defines glue of its own: the scan neither loads it nor runs the built-in glue for it; once the program has
+    used it (it is loaded), its own glue runs, once, and the built-in one never"""
+    import builtins
+    import importlib.util
+    import os
+    import shutil
+    import tempfile
+    LAZY[0] += 1
+    name = "vlazy_%d_%d" % (os.getpid(), LAZY[0])
+    d = tempfile.mkdtemp(prefix="c17lazy")
+    log = []
+    obs = []
+    try:
+        path = os.path.join(d, name + ".py")
+        with open(path, "w") as f:
+            f.write("import builtins\nLOG = builtins._c17_lazy_log\nLOG.append(('%s', 'body'))\n"
+                    "def _stackscope_install_glue_():\n    LOG.append(('%s', 'module'))\nVALUE = 5\n" % (name, name))
+        builtins._c17_lazy_log = log
+        with warnings.catch_warnings():
+            warnings.simplefilter("ignore")
+            extract(1)
+        _glue.builtin_glue(name)(lambda: log.append((name, "builtin")))
+        spec = importlib.util.spec_from_file_location(name, path)
+        loader = importlib.util.LazyLoader(spec.loader)
+        spec.loader = loader
+        module = importlib.util.module_from_spec(spec)
+        sys.modules[name] = module
+        loader.exec_module(module)
+        with warnings.catch_warnings(record=True) as w:
+            warnings.simplefilter("always")
+            extract(1)
+            if (name, "body") in log:
+                obs.append({"kind": "lazily_imported_module_loaded_by_the_scan", "log": list(log)})
+            if (name, "builtin") in log:
+                obs.append({"kind": "builtin_glue_ran_for_a_module_that_has_not_been_loaded_and_brings_its_own", "log": list(log)})
+            if module.VALUE != 5:          # the program uses the module: it loads now
+                raise AssertionError("lazy module broken")
+            other = types.ModuleType(name + "_other")     # (and something else is imported, as happens all the time)
+            sys.modules[name + "_other"] = other
+            extract(1)
+            extract(1)
+        if w:
+            obs.append({"kind": "warnings", "msgs": [str(x.message)[:120] for x in w]})
+        runs = [e for e in log if e[1] in ("module", "builtin")]
+        if runs != [(name, "module")] and not obs:
+            obs.append({"kind": "glue_runs_for_the_lazily_imported_module", "got": runs, "exp": [[name, "module"]]})
+    finally:
+        sys.modules.pop(name, None)
+        sys.modules.pop(name + "_other", None)
+        _glue.builtin_glue_pending.pop(name, None)
+        shutil.rmtree(d, ignore_errors=True)
+    return {"obs": obs, "known": [], "stats": {"glue_runs": len(log)}}
+
+
 REENTRY = [0]
 
 
@@ -483,6 +542,8 @@ def handle(req):
     op = req["op"]
     if op == "glue.reentrant":
         return run_reentrant(req)
+    if op == "glue.lazyboth":
+        return run_lazyboth(req)
     if op == "glue.history":
         return run_history(req)
     if op == "glue.schedule":
